@@ -158,11 +158,40 @@ class DecoderLimits(Stream):
         return case["mm"] is not None or case["mp"] is not None
 
 
+def field_over_limit_cases(rng, n):
+    """one non-file field just above max_form_memory_size, read in chunks below the limit so that only
+    the accumulated field_size accounting can refuse it: size in (L, L + b], buffer_size b <= L"""
+    for _ in range(n):
+        L = rng.choice([60, 100, 100, 150, 300, 1000])
+        b = rng.choice([(L + 1) // 2, L - 1, L, L // 3, 16, 48])
+        b = max(1, min(b, L))
+        size = L + rng.randrange(1, b + 1)
+        bd = rng.choice([b"B", b"bound"])
+        payload = bytes(rng.choice(b"vw \r\n-") for _ in range(size)) if rng.random() < 0.3 else b"v" * size
+        payload = payload.replace(b"\n--", b"\n.-").replace(b"\r--", b"\r.-")
+        parts = [("a", None, [], payload, False)]
+        if rng.random() < 0.3:
+            parts.insert(0, ("z", None, [], b"1", False))
+        if rng.random() < 0.3:
+            parts.append(("up", "f", [], b"d" * rng.choice([1, 500]), False))
+        body = render(bd, b"\r\n", parts)
+        sched = [rng.choice([b, b, max(1, b - 3), 7])] * rng.choice([0, 0, 40]) if rng.random() < 0.3 else []
+        yield {"b": hx(bd), "body": hx(body), "bs": b, "sched": sched, "mm": L, "mp": rng.choice([None, 10])}
+
+
 class ParserLimits(Stream):
     name = "limits-parser"
-    corpus = []
+    corpus = [
+        # a 150-byte field, limit 100, reads of 50 bytes: every chunk and every Data event is below the
+        # limit, only the accumulated field size exceeds it
+        {"b": hx(b"B"), "body": hx(render(b"B", b"\r\n", [("a", None, [], b"v" * 150, False)])), "bs": 50, "sched": [], "mm": 100, "mp": None},
+        {"b": hx(b"B"), "body": hx(render(b"B", b"\r\n", [("a", None, [], b"v" * 101, False)])), "bs": 50, "sched": [], "mm": 100, "mp": None},
+        {"b": hx(b"B"), "body": hx(render(b"B", b"\r\n", [("a", None, [], b"v" * 100, False)])), "bs": 50, "sched": [], "mm": 100, "mp": None},
+        {"b": hx(b"B"), "body": hx(render(b"B", b"\r\n", [("a", None, [], b"v" * 190, False)])), "bs": 99, "sched": [], "mm": 100, "mp": None},
+    ]
 
     def cases(self, rng, tier):
+        yield from field_over_limit_cases(rng, 400 if tier == "quick" else 6000)
         for _ in range(1500 if tier == "quick" else 25000):
             bd, body = sized_body(rng)
             L = len(body)
@@ -360,6 +389,9 @@ class RequestLimits(Stream):
         {"kind": "mp", "b": hx(b"bound"), "body": hx(render(b"bound", b"\r\n", [("a", None, [], b"v" * 200000, False)])), "dcl": 10, "term": True, "short": False, "mcl": 1000, "mm": 500000, "mp": 1000},
         {"kind": "mp", "b": hx(b"bound"), "body": hx(render(b"bound", b"\r\n", [("up", "f", [], b"d" * 50000, False)])), "dcl": 0, "term": True, "short": True, "mcl": 100, "mm": None, "mp": None},
         {"kind": "url", "b": "-", "body": hx(b"a=" + b"x" * 3000), "dcl": 1000, "term": True, "short": False, "mcl": 1000, "mm": None, "mp": None},
+        # the Request defaults (500 000 bytes, 64 KiB reads): one text field of 510 000 bytes
+        {"kind": "mp", "b": hx(b"bound"), "body": hx(render(b"bound", b"\r\n", [("a", None, [], b"v" * 510000, False)])), "cl": True, "term": False, "short": False, "mcl": None, "mm": 500000, "mp": 1000},
+        {"kind": "mp", "b": hx(b"bound"), "body": hx(render(b"bound", b"\r\n", [("a", None, [], b"v" * 150, False)])), "cl": True, "term": False, "short": True, "mcl": None, "mm": 100, "mp": 1000},
     ]
 
     @staticmethod
